@@ -86,8 +86,9 @@ func (c *CheckCtx) RunScenario(sc *Scenario, simIndex int) (*Outcome, error) {
 	}
 	c.mu.Lock()
 	defer c.mu.Unlock()
-	if f := os.Getenv("VERIF_DIGEST_FILE"); f != "" {
-		// determinism self-test: one line per executed scenario
+	if f := os.Getenv("VERIF_DIGEST_FILE"); f != "" && !c.inRaceLeg {
+		// determinism self-test: one line per executed scenario (the race leg re-executes whichever scenarios
+		// arrived first, with real goroutines: neither its selection nor its schedule is the simulator's)
 		if fh, err := os.OpenFile(f, os.O_APPEND|os.O_CREATE|os.O_WRONLY, 0o644); err == nil {
 			fmt.Fprintf(fh, "%s %d %s %s\n", c.Prop, simIndex, scenarioName(sc), out.Digest)
 			fh.Close()
